@@ -68,6 +68,10 @@ def write(design, r, style=True):
                             tv = "(%s \"%s\")" % (kw("string"), v)
                         elif t == "integer":
                             tv = "(%s %d)" % (kw("integer"), v)
+                        elif t == "number":
+                            tv = "(%s %d)" % (kw("number"), v)
+                        elif t == "number_e":
+                            tv = "(%s (%s %d %d))" % (kw("number"), kw("e"), v[0], v[1])
                         else:
                             tv = "(%s (%s))" % (kw("boolean"), kw("true") if v else kw("false"))
                         own = " (%s \"me\")" % kw("owner") if style and r.random() < 0.2 else ""
